@@ -31,6 +31,7 @@ type exploreStats struct {
 	Finding    *finding
 	FindingSch []int
 	MaxShared  int
+	Diverged   int64 // executions whose replayed prefix saw a different enabled set: nondeterminism inside the library (e.g. map iteration order)
 }
 
 const horizon = 20000
@@ -107,6 +108,12 @@ func explore(sc *scenario, bound int, maxExecs int64, outcome func(x *vrt.Exec) 
 		}
 		if x.Shared > st.MaxShared {
 			st.MaxShared = x.Shared
+		}
+		if f != nil && f.Kind == "harness-nondeterminism" {
+			// the code under test behaved differently under the same schedule prefix (not possible on the unchanged
+			// tree, which has no such source): this subtree cannot be explored systematically; count it and go on
+			st.Diverged++
+			return true
 		}
 		if f != nil {
 			st.Finding, st.FindingSch = f, choices(x)
